@@ -1,5 +1,5 @@
 (* Props/C07.v — the outline survives formatting and comes out well-nested. *)
-From IweV Require Import Check_Norm NormFacts.
+From IweV Require Import Check_Norm NormFacts SectionsSpec SectionsFacts.
 Local Open Scope string_scope.
 Local Open Scope list_scope.
 
@@ -17,3 +17,41 @@ Example C07_well_nested_example :
   glevels (project "" (T None (NDocument "k") [T None (NSection [Str "a"]) [T None (NSection [Str "b"]) []];
                                                 T None (NSection [Str "c"]) []])) = [1; 2; 1].
 Proof. reflexivity. Qed.
+
+
+(* Identity on well-nested outlines.  [spec_tree key bs] is the tree the blocks of a note
+   determine (SectionsSpec.v: the specification the transliterated builder and, through it, the
+   implementation are compared with on every run).  For every list of blocks, of any length and
+   nesting, whose top-level heading levels are well nested (first 1, never a skipped level), the
+   heading levels written for the note are exactly those levels. *)
+Theorem C07_identity :
+  forall (key : string) (bs : list dblock),
+    well_nested (hlv bs) = true ->
+    glevels (project (key_parent key) (spec_tree key bs)) = hlv bs.
+Proof. exact note_identity. Qed.
+Check C07_identity :
+  forall (key : string) (bs : list dblock),
+    well_nested (hlv bs) = true ->
+    glevels (project (key_parent key) (spec_tree key bs)) = hlv bs.
+Print Assumptions C07_identity.
+
+(* The same in every nesting context (the body of a quote, the body of a list item), which the
+   sectioning treats like a note of its own with levels restarting at 1. *)
+Theorem C07_identity_context :
+  forall (dir : string) (bs : list dblock),
+    well_nested (hlv bs) = true ->
+    glevels (flat_map (project_node dir 0) (blocks_tree dir (fuel_for bs) bs)) = hlv bs.
+Proof. exact context_identity. Qed.
+Check C07_identity_context :
+  forall (dir : string) (bs : list dblock),
+    well_nested (hlv bs) = true ->
+    glevels (flat_map (project_node dir 0) (blocks_tree dir (fuel_for bs) bs)) = hlv bs.
+Print Assumptions C07_identity_context.
+
+Example C07_identity_example :
+  let bs := [DPara (0,1) [Str "p"]; DHeader (2,3) 1 [Str "a"]; DHeader (4,5) 2 [Str "b"];
+             DBList [[DPara (6,7) [Str "i"]; DHeader (8,9) 3 [Str "inner"]]]; DHeader (10,11) 2 [Str "c"];
+             DHeader (12,13) 1 [Str "d"]] in
+  well_nested (hlv bs) = true /\ hlv bs = [1; 2; 2; 1] /\
+  glevels (project "" (spec_tree "k" bs)) = [1; 2; 2; 1].
+Proof. cbn zeta. repeat split; reflexivity. Qed.
